@@ -248,65 +248,71 @@ theorem combineOcc_none_nil {r : Option Symbol} (h : combineOcc none [] = .ok r)
 
 /-! ### Composition over two levels -/
 
-theorem Summ.trans {c : Symbol} {gs occ : List Symbol} (f : Symbol → List Symbol)
-    (hc : Summ c gs) (hg : ∀ g ∈ gs, Summ g (f g)) (hocc : ∀ s, s ∈ occ ↔ ∃ g ∈ gs, s ∈ f g) : Summ c occ := by
+theorem Summ.trans {c : Symbol} {gs occ : List Symbol} (hc : Summ c gs)
+    (cover : ∀ s ∈ occ, ∃ g ∈ gs, ∃ o, Summ g o ∧ s ∈ o)
+    (sub : ∀ g ∈ gs, ∃ o, Summ g o ∧ ∀ s ∈ o, s ∈ occ) : Summ c occ := by
   refine ⟨?_, ?_, ?_, ?_, ?_, ?_, ?_, ?_, ?_⟩
-  · intro s hs; obtain ⟨g, hg1, hg2⟩ := (hocc s).1 hs
-    rw [(hg g hg1).name s hg2, hc.name g hg1]
-  · intro s hs; obtain ⟨g, hg1, hg2⟩ := (hocc s).1 hs
-    exact ((hg g hg1).typeLe s hg2).trans (hc.typeLe g hg1)
+  · intro s hs; obtain ⟨g, hg1, o, ho, hso⟩ := cover s hs
+    rw [ho.name s hso, hc.name g hg1]
+  · intro s hs; obtain ⟨g, hg1, o, ho, hso⟩ := cover s hs
+    exact (ho.typeLe s hso).trans (hc.typeLe g hg1)
   · obtain ⟨g, hg1, hgt⟩ := hc.typeAtt
-    obtain ⟨s, hs, hst⟩ := (hg g hg1).typeAtt
-    exact ⟨s, (hocc s).2 ⟨g, hg1, hs⟩, by rw [hst, hgt]⟩
+    obtain ⟨o, ho, hsub⟩ := sub g hg1
+    obtain ⟨s, hs, hst⟩ := ho.typeAtt
+    exact ⟨s, hsub s hs, by rw [hst, hgt]⟩
   · rcases hc.lags with ⟨hcl, hall⟩ | ⟨m, hcl, hm, hall, hatt⟩
     · left; refine ⟨hcl, ?_⟩
-      intro s hs; obtain ⟨g, hg1, hg2⟩ := (hocc s).1 hs
-      rcases (hg g hg1).lags with ⟨_, h2⟩ | ⟨m', h1, _⟩
-      · exact h2 s hg2
+      intro s hs; obtain ⟨g, hg1, o, ho, hso⟩ := cover s hs
+      rcases ho.lags with ⟨_, h2⟩ | ⟨m', h1, _⟩
+      · exact h2 s hso
       · rw [hall g hg1] at h1; cases h1
     · right; refine ⟨m, hcl, hm, ?_, ?_⟩
-      · intro s hs; obtain ⟨g, hg1, hg2⟩ := (hocc s).1 hs
-        rcases (hg g hg1).lags with ⟨h1, _⟩ | ⟨m', h1, _, h3, _⟩
+      · intro s hs; obtain ⟨g, hg1, o, ho, hso⟩ := cover s hs
+        rcases ho.lags with ⟨h1, _⟩ | ⟨m', h1, _, h3, _⟩
         · exact absurd h1 (hall g hg1).1
-        · refine ⟨(h3 s hg2).1, ?_⟩
-          intro i hi; have := (h3 s hg2).2 i hi; have := (hall g hg1).2 m' h1; omega
+        · refine ⟨(h3 s hso).1, ?_⟩
+          intro i hi; have := (h3 s hso).2 i hi; have := (hall g hg1).2 m' h1; omega
       · rcases hatt with h0 | ⟨g, hg1, hgm⟩
         · exact Or.inl h0
-        · rcases (hg g hg1).lags with ⟨h1, _⟩ | ⟨m', h1, _, _, h4⟩
+        · obtain ⟨o, ho, hsub⟩ := sub g hg1
+          rcases ho.lags with ⟨h1, _⟩ | ⟨m', h1, _, _, h4⟩
           · rw [hgm] at h1; cases h1
           · rw [hgm] at h1; cases h1
             rcases h4 with h0 | ⟨s, hs, hsm⟩
             · exact Or.inl h0
-            · exact Or.inr ⟨s, (hocc s).2 ⟨g, hg1, hs⟩, hsm⟩
+            · exact Or.inr ⟨s, hsub s hs, hsm⟩
   · rcases hc.leads with ⟨hcl, hall⟩ | ⟨m, hcl, hm, hall, hatt⟩
     · left; refine ⟨hcl, ?_⟩
-      intro s hs; obtain ⟨g, hg1, hg2⟩ := (hocc s).1 hs
-      rcases (hg g hg1).leads with ⟨_, h2⟩ | ⟨m', h1, _⟩
-      · exact h2 s hg2
+      intro s hs; obtain ⟨g, hg1, o, ho, hso⟩ := cover s hs
+      rcases ho.leads with ⟨_, h2⟩ | ⟨m', h1, _⟩
+      · exact h2 s hso
       · rw [hall g hg1] at h1; cases h1
     · right; refine ⟨m, hcl, hm, ?_, ?_⟩
-      · intro s hs; obtain ⟨g, hg1, hg2⟩ := (hocc s).1 hs
-        rcases (hg g hg1).leads with ⟨h1, _⟩ | ⟨m', h1, _, h3, _⟩
+      · intro s hs; obtain ⟨g, hg1, o, ho, hso⟩ := cover s hs
+        rcases ho.leads with ⟨h1, _⟩ | ⟨m', h1, _, h3, _⟩
         · exact absurd h1 (hall g hg1).1
-        · refine ⟨(h3 s hg2).1, ?_⟩
-          intro i hi; have := (h3 s hg2).2 i hi; have := (hall g hg1).2 m' h1; omega
+        · refine ⟨(h3 s hso).1, ?_⟩
+          intro i hi; have := (h3 s hso).2 i hi; have := (hall g hg1).2 m' h1; omega
       · rcases hatt with h0 | ⟨g, hg1, hgm⟩
         · exact Or.inl h0
-        · rcases (hg g hg1).leads with ⟨h1, _⟩ | ⟨m', h1, _, _, h4⟩
+        · obtain ⟨o, ho, hsub⟩ := sub g hg1
+          rcases ho.leads with ⟨h1, _⟩ | ⟨m', h1, _, _, h4⟩
           · rw [hgm] at h1; cases h1
           · rw [hgm] at h1; cases h1
             rcases h4 with h0 | ⟨s, hs, hsm⟩
             · exact Or.inl h0
-            · exact Or.inr ⟨s, (hocc s).2 ⟨g, hg1, hs⟩, hsm⟩
-  · intro s hs e he; obtain ⟨g, hg1, hg2⟩ := (hocc s).1 hs
-    exact hc.eqAll g hg1 e ((hg g hg1).eqAll s hg2 e he)
+            · exact Or.inr ⟨s, hsub s hs, hsm⟩
+  · intro s hs e he; obtain ⟨g, hg1, o, ho, hso⟩ := cover s hs
+    exact hc.eqAll g hg1 e (ho.eqAll s hso e he)
   · intro e he; obtain ⟨g, hg1, hge⟩ := hc.eqAtt e he
-    obtain ⟨s, hs, hse⟩ := (hg g hg1).eqAtt e hge
-    exact ⟨s, (hocc s).2 ⟨g, hg1, hs⟩, hse⟩
-  · intro s hs e he; obtain ⟨g, hg1, hg2⟩ := (hocc s).1 hs
-    exact hc.codeAll g hg1 e ((hg g hg1).codeAll s hg2 e he)
+    obtain ⟨o, ho, hsub⟩ := sub g hg1
+    obtain ⟨s, hs, hse⟩ := ho.eqAtt e hge
+    exact ⟨s, hsub s hs, hse⟩
+  · intro s hs e he; obtain ⟨g, hg1, o, ho, hso⟩ := cover s hs
+    exact hc.codeAll g hg1 e (ho.codeAll s hso e he)
   · intro e he; obtain ⟨g, hg1, hge⟩ := hc.codeAtt e he
-    obtain ⟨s, hs, hse⟩ := (hg g hg1).codeAtt e hge
-    exact ⟨s, (hocc s).2 ⟨g, hg1, hs⟩, hse⟩
+    obtain ⟨o, ho, hsub⟩ := sub g hg1
+    obtain ⟨s, hs, hse⟩ := ho.codeAtt e hge
+    exact ⟨s, hsub s hs, hse⟩
 
 end Fsic.Parser
